@@ -322,8 +322,9 @@ def run_alignfn(ctx) -> RuleResult:
                 index = target.slice
                 ok = is_S(index, "index")
                 tag = index.args[1].value if ok and len(index.args) > 1 else None
+                # the iteration tag identifies one pass of one loop, whatever the iterable is wrapped in (zip, enumerate)
                 elem_tags = {n.args[1].value for n in walk_shared(stored)
-                             if is_S(n, "elem") and len(n.args) > 1 and _txt(n.args[0]) == _txt(index.args[0])} if ok else set()
+                             if is_S(n, "elem") and len(n.args) > 1 and isinstance(n.args[1], ast.Constant)} if ok else set()
                 ok = ok and tag in elem_tags  # the image of argument i is computed from argument i
                 result.ob(f"{name}: slot i is replaced by a value computed from argument i", ok,
                           module.loc(last.orig), _txt(target)[:60])
@@ -437,6 +438,8 @@ def run_alignfn(ctx) -> RuleResult:
                     and isinstance(body.elts[0].func, ast.Name) and body.elts[0].func.id == "int":
                 return True
             return False
+        if isinstance(key, ast.Call) and U(key.func) in ("functools.partial", "partial") and key.args:
+            return _int_key(key.args[0])  # partial(f, ...): f decides
         if isinstance(key, ast.Name):
             if key.id in ("str", "len", "repr"):
                 return False
